@@ -208,6 +208,8 @@ def check(run, replay=None):
     if replay:
         data = json.load(open(replay))
         cases = [data["failure"]["case"]] if "failure" in data else []
+        cases = [c if "coq" in c else make_case(c["desc"]["overrides"], c["desc"]["has_inst"], c["desc"]["has_migrate"], c["desc"]["reply_fn"],
+                                                c["desc"]["replies_feature"], c["desc"]["generic"]) for c in cases]
     else:
         cases = gen_cases(run, rng, thorough)
     reqs = [("c%d" % i, "entry_points", c["attr"], c["item"]) for i, c in enumerate(cases)]
@@ -240,6 +242,8 @@ def check(run, replay=None):
             # the order of fn items inside the module is not an observable of the property
             if (m[:1], sorted(m[1:])) != (impl[:1], sorted(impl[1:])):
                 run.disagree("entry_points facts", {"desc": d, "item": c["item"]}, m, impl)
+    from . import mtimpl
+    mtimpl.run_cases(run, [c for c in cases if "desc" in c], "c06mt")
     run.programs = len(cases)
     if replay:
         print("replayed %d case(s): %d oracle failure(s)" % (len(cases), len(run.oracle_failures)))
